@@ -444,6 +444,10 @@ func (s *programState) sendAllToAccount(accountLiteral parser.ValueExpr, ovedraf
 
 	// we sent balance+overdraft
 	sentAmt := new(big.Int).Add(balance, ovedraft)
+	// an account whose balance is below its overdraft limit has nothing to give
+	if sentAmt.Sign() == -1 {
+		sentAmt.SetInt64(0)
+	}
 	s.pushSender(*account, sentAmt)
 	return sentAmt, nil
 }
@@ -531,6 +535,10 @@ func (s *programState) trySendingToAccount(accountLiteral parser.ValueExpr, amou
 
 		// that's the amount we are allowed to send (balance + overdraft)
 		safeSendAmt := new(big.Int).Add(balance, overdraft)
+		// an account whose balance is below its overdraft limit has nothing to give
+		if safeSendAmt.Sign() == -1 {
+			safeSendAmt.SetInt64(0)
+		}
 		actuallySentAmt = utils.MinBigInt(safeSendAmt, amount)
 	}
 
